@@ -802,6 +802,30 @@ class SymTsStr(SymStr):
         self.dt = dt
         return self
 
+    # a string that parses to a tz-aware timestamp is never one of the fixed keywords it gets compared with
+    # ("TABLE END", "", "in"/"out"/"intra", "__unknown"): equality with a plain string is False
+    def __eq__(self, o):
+        if isinstance(o, SymTsStr):
+            if o.dt is self.dt:
+                return True
+            raise Unsupported("equality of two symbolic timestamp strings")
+        return False
+
+    def __ne__(self, o):
+        return not self.__eq__(o)
+
+    def __hash__(self):
+        return 0x5EED
+
+    def lower(self):
+        return self
+
+    def upper(self):
+        return self
+
+    def strip(self, chars=None):
+        return self
+
 
 def vf_fstr(*parts):
     """f-string replacement: exact for concrete parts, structured when a part is symbolic"""
